@@ -76,6 +76,59 @@ def expected (w : World) (stmts : List Stmt) (site : Site) (r : Request) (combin
   | .ok resp => ⟨.ok resp, none, dget d⟩
   | .error e => specRender w stmts r e combinedSro d
 
+/-! ### `invoke_exception_view` with all its arguments, the sites above the tween, the execution policy -/
+
+/-- declarative reading of the core of `invoke_exception_view` for exception `e` and the (already `secure`-adjusted)
+original request record `r1`; `prior` = how the request's attributes read before the call -/
+def specCore (w : World) (stmts : List Stmt) (r1 : Request) (e : Exc) (combinedSro : List Nat) (reraise : Bool)
+    (prior : String → Option Nat) : SpecResult :=
+  let after : String → Option Nat := fun k => if k = "exception" ∨ k = "exc_info" then some e.id else prior k
+  match excWinner w stmts r1 e combinedSro with
+  | none =>
+    ⟨.error (if reraise then e
+             else if anyRegistered (allRegs w.sec stmts) clsExc (excRequest r1 e combinedSro) then w.excMismatch
+             else w.excNotFound), none, prior⟩
+  | some v =>
+    if v.secured && !r1.permitted then ⟨.error (if reraise then e else w.excForbidden), none, prior⟩
+    else
+      match bodyOf stmts v.tag with
+      | .respond => ⟨.ok (.view v.tag), some (seenOf e), after⟩
+      | .returnContext => ⟨.ok (.self e.id e.status), some (seenOf e), after⟩
+      | .raise e2 => ⟨.error (if reraise then e else e2.again), some (seenOf e), prior⟩
+
+/-- `exc_info` not given ⇒ the exception being handled where the call is made -/
+def effectiveExc (args : InvokeArgs) (current : Exc) : Exc :=
+  match args.excInfo with
+  | some x => x
+  | none => current
+
+/-- `secure=False` ⇒ as if the policy granted -/
+def effectiveRequest (args : InvokeArgs) (r : Request) : Request :=
+  if args.secure then r else { r with permitted := true }
+
+def specInvoke (w : World) (stmts : List Stmt) (r : Request) (combinedSro : List Nat) (args : InvokeArgs) (current : Exc)
+    (prior : String → Option Nat) : SpecResult :=
+  specCore w stmts (effectiveRequest args r) (effectiveExc args current) combinedSro args.reraise prior
+
+/-- `invoke_request`: a site above the tween that raises before the tween runs ⇒ that exception, nothing else happened;
+one that raises after a response left the tween ⇒ that exception, everything else as the tween left it -/
+def specInvokeRequest (w : World) (stmts : List Stmt) (above : Above) (site : Site) (r : Request) (combinedSro : List Nat)
+    (ctxObj : Nat) (d : Dict) : SpecResult :=
+  match above.before with
+  | some e => ⟨.error e, none, dget d⟩
+  | none =>
+    let sp := expected w stmts site r combinedSro ctxObj d
+    match sp.outcome, above.after with
+    | .ok _, some e => { sp with outcome := .error e }
+    | _, _ => sp
+
+def specPolicy (p : Policy) (w : World) (stmts : List Stmt) (above : Above) (site : Site) (r : Request)
+    (combinedSro : List Nat) (ctxObj : Nat) (d : Dict) : SpecResult :=
+  let sp := specInvokeRequest w stmts above site r combinedSro ctxObj d
+  match p, sp.outcome with
+  | .invoking args, .error x => specInvoke w stmts { r with lineage := [] } combinedSro args x sp.attr
+  | _, _ => sp
+
 /-- tags identify statements -/
 def tagsUniqueB (stmts : List Stmt) : Bool := (stmts.map (·.tag)).Nodup
 
